@@ -298,6 +298,18 @@ func c19Stage(r *rand.Rand, c *c19Case, dir string) {
 		idx.CmdEmbeddings = append(idx.CmdEmbeddings, c19Vec(r, d))
 	}
 	db.VerifSetEmbeddingIndex(idx)
+	if r.Intn(3) == 0 {
+		// the embeddings are regenerated while the index is in use: same number of commands, other vectors (not
+		// normalised, ten times longer); whatever the index remembers from the first search must not leak into the second
+		db.SearchUniversal(q, o.toGo())
+		for i := range idx.CmdEmbeddings {
+			v := c19Vec(r, d)
+			for k := range v {
+				v[k] *= 10
+			}
+			idx.CmdEmbeddings[i] = v
+		}
+	}
 	c.With = projectResults(db, db.SearchUniversal(q, o.toGo()))
 	if qe := db.EmbedQuery(q); qe != nil {
 		if ss := db.SemanticScores(qe); ss != nil {
